@@ -354,7 +354,14 @@ def s_consume_data(vc):
     if kind == "int" and thresh_set:
         vc.assume(Or(E <= 0, E <= S))
     pre_cs, pre_ss = ("state_consume_request_body", "state_wait_for_response_headers") if request else ("state_done", "state_consume_response_body")
-    st, flow, client, server = mk_stream(vc, pre_cs, pre_ss, response=None if request else mk_response(vc),
+    # the size check is due on EVERY chunk whatever the head says: the message may carry a Content-Length that does not frame it
+    # (Transfer-Encoding: chunked + Content-Length with validation off, or a header added by an addon in the headers hook)
+    hk = vc.case("message_headers", ["none", "content-length", "chunked+content-length", "chunked"])
+    clv = vc.sym_bytes("declared_length")
+    hf = {"none": [], "content-length": [(b"Content-Length", clv)], "chunked": [(b"transfer-encoding", b"chunked")],
+          "chunked+content-length": [(b"Transfer-Encoding", b"chunked"), (b"content-length", clv)]}[hk]
+    st, flow, client, server = mk_stream(vc, pre_cs, pre_ss, request=mk_request(vc, headers=mk_headers(vc, hf if request else [])),
+                                         response=None if request else mk_response(vc, headers=mk_headers(vc, hf)),
                                          reqbuf=buf if request else None, respbuf=None if request else buf,
                                          stream_large_bodies=thresh, body_size_limit=limit, store_streamed_bodies=False)
     layer_handle_event_unpaused(vc)
@@ -648,23 +655,25 @@ def _run_case(direction, framing, parts, limit, thresh, store, addon, opts_cache
             msg.stream = True if addon == "stream_true" else fn
 
     with buffer_watermark() as marks:
-        r = Run(policy, body_size_limit=limit, stream_large_bodies=thresh, store_streamed_bodies=store)
+        both = framing == "chunked+cl"     # a Content-Length that does not frame the message (chunked wins); only accepted with validation off
+        extra = (b"Content-Length: %d\r\n" % len(body)) if both else b""
+        r = Run(policy, body_size_limit=limit, stream_large_bodies=thresh, store_streamed_bodies=store, validate_inbound_headers=not both)
         if direction == "request":
-            head = b"POST http://example.com/ HTTP/1.1\r\nHost: example.com\r\n" + (b"Content-Length: %d\r\n\r\n" % len(body) if framing == "cl" else b"Transfer-Encoding: chunked\r\n\r\n")
+            head = b"POST http://example.com/ HTTP/1.1\r\nHost: example.com\r\n" + (b"Content-Length: %d\r\n\r\n" % len(body) if framing == "cl" else extra + b"Transfer-Encoding: chunked\r\n\r\n")
             r.feed_client(head)
             for p in parts:
                 r.feed_client(p if framing == "cl" else b"%x\r\n%s\r\n" % (len(p), p))
-            if framing == "chunked":
+            if framing != "cl":
                 r.feed_client(b"0\r\n\r\n")
             if r.servers:
                 r.feed_server(b"HTTP/1.1 204 No Content\r\n\r\n")   # no response body: only request bytes are ever buffered
         else:
             r.feed_client(b"GET http://example.com/ HTTP/1.1\r\nHost: example.com\r\n\r\n")
-            head = b"HTTP/1.1 200 OK\r\n" + (b"Content-Length: %d\r\n\r\n" % len(body) if framing == "cl" else b"Transfer-Encoding: chunked\r\n\r\n")
+            head = b"HTTP/1.1 200 OK\r\n" + (b"Content-Length: %d\r\n\r\n" % len(body) if framing == "cl" else extra + b"Transfer-Encoding: chunked\r\n\r\n")
             r.feed_server(head)
             for p in parts:
                 r.feed_server(p if framing == "cl" else b"%x\r\n%s\r\n" % (len(p), p))
-            if framing == "chunked":
+            if framing != "cl":
                 r.feed_server(b"0\r\n\r\n")
     return r, marks
 
@@ -684,7 +693,7 @@ def bounded(tier, seed):
     rnd = random.Random(seed)
     cases = []
     for direction in ("request", "response"):
-        for framing in ("cl", "chunked"):
+        for framing in ("cl", "chunked", "chunked+cl"):
             for limit, thresh in configs:
                 vals = [human_size(x) for x in (limit, thresh) if x is not None]
                 sizes = {0, 1}
@@ -700,7 +709,7 @@ def bounded(tier, seed):
                                 cases.append((direction, framing, parts, limit, thresh, store, addon))
     if tier == "quick":
         rnd.shuffle(cases)
-        cases = cases[:9000]
+        cases = cases[:12000]
     for direction, framing, parts, limit, thresh, store, addon in cases:
         L = human_size(limit) if limit is not None else None
         S = human_size(thresh) if thresh is not None else None
@@ -760,7 +769,7 @@ def bounded(tier, seed):
             ok = got_body == expected and complete and rest == b""
         if not ok:
             # (the class 'transformation emits an empty chunk into a chunked HTTP/1 message' has its own check name: KF-C07-1)
-            b.fail("c07.relay.peer_receives_exactly_transformed_bytes" + ("[empty chunk, chunked]" if exp["emits_empty"] and framing == "chunked" else ""), inp, f"expected {expected!r}, peer stream after head {raw_after_head[:120]!r}")
+            b.fail("c07.relay.peer_receives_exactly_transformed_bytes" + ("[empty chunk, chunked]" if exp["emits_empty"] and framing != "cl" else ""), inp, f"expected {expected!r}, peer stream after head {raw_after_head[:120]!r}")
         if exp["streamed"]:
             lim = exp["bound"] if not store else None
             if lim is not None and held > lim:
